@@ -32,6 +32,7 @@
  *                              client i prepares a request: m = g (GET) | p (POST, Content-Length B) |
  *                              c (POST, chunked, B body bytes in chunks of c); k = 1 keep-alive / 0 Connection: close;
  *                              z = s (small response) | b (big response); H = exact length of the request head
+ *                              (ignored while the client waits in the listen queue with bytes already sent)
  *            s<i>,<n>          client i sends the next n bytes of its prepared request (0 = the rest)
  *            r<i>              client i reads everything currently available
  *            R<i>              client i keeps reading until the server has nothing more to send
@@ -297,8 +298,9 @@ static void cl_prepare(client_t *c, int m, int k, int z, size_t H, size_t B, siz
         if (0 == csz) csz = B ? B : 1;
         for (size_t left = B; left; ) {
             const size_t n = left < csz ? left : csz;
-            buffer_append_uint_hex_lc(b, n);
-            buffer_append_string(b, "\r\n");
+            char hx[32];
+            snprintf(hx, sizeof(hx), "%zx\r\n", n);      /* (minimal number of hex digits) */
+            buffer_append_string(b, hx);
             char *s = buffer_extend(b, n); memset(s, 'd', n);
             buffer_append_string(b, "\r\n");
             left -= n;
@@ -419,6 +421,8 @@ static void do_op(const char *op) {
       case 'q': {
         char m = 'g', z = 's'; int k = 1; unsigned long H = 0, B = 0, csz = 0;
         if (sscanf(rest, ",%c,%d,%c,%lu,%lu,%lu", &m, &k, &z, &H, &B, &csz) < 5) { g_failed = 1; return; }
+        /* (a client that has already sent bytes while still waiting in the listen queue keeps its request) */
+        if (c->req && c->reqoff && !c->accepted && NULL == cl_con(c)) break;
         cl_prepare(c, m, k, z, H, B, csz);
         break;
       }
@@ -495,7 +499,8 @@ static void run_scenario(void) {
     memset(bigbuf, 'x', BIGRESP);
 
     server * const srv = g_srv = server_init();
-    fdlog_st * const nullh = fdlog_init(NULL, open("/dev/null", O_WRONLY), FDLOG_FD);
+    /* (LTV_LOG=1: keep the server's error log on stderr, for debugging a scenario by hand) */
+    fdlog_st * const nullh = getenv("LTV_LOG") ? NULL : fdlog_init(NULL, open("/dev/null", O_WRONLY), FDLOG_FD);
     srv->errh = log_set_global_errh(nullh, 0);
     log_monotonic_secs = ltv_now;
 
